@@ -9,7 +9,9 @@ TM_TRUSTED = ["CometBFT light.Verify, ValidatorSet.VerifyCommitLight*, *FromProt
               "typed client store: the consensusStates/{h}, .../processedTime, .../processedHeight key families are modelled as typed maps (licensed by C16); the iterateConsensusStates index is modelled at byte level (sorted by bytewise key order)",
               "time.Time / time.Duration modelled as unbounded Int nanoseconds (no saturation of Time.Sub / overflow of Time.Add: |durations| < 292 years); processed time = uint64(UnixNano) for block times after 1970",
               "protobuf (de)serialisation of client/consensus states and of the Any-wrapped client messages; reflect.DeepEqual on decoded consensus states = field-wise equality of (timestamp, root, next validators hash)",
-              "SDK transaction atomicity is NOT assumed: operations are modelled at keeper level including writes that precede a late error (unreachable under the proved invariant)"]
+              "SDK transaction atomicity is NOT assumed: operations are modelled at keeper level including writes that precede a late error (unreachable under the proved invariant)",
+              "execution mode is block execution (FinalizeBlock) or simulation: UpdateState prunes the oldest expired consensus state; in CheckTx/ReCheckTx the code skips pruning (that state is discarded)",
+              "client identifiers are 07-tendermint-N with N handed out by GenerateClientIdentifier (fresh, increasing); clients of other types are outside the model (see findings/C25-recover-substitute-type-panic.md)"]
 
 TM_RULE_RU = " recover: subject / substitute / bystander clients over {Active, Frozen (misbehaviour or conflicting header), Expired (time jump to expiry+0/1ns)} x substitute height -2/0/+1/+3/+10 x one parameter difference (trust level, unbonding period, clock drift, proof specs, upgrade path | allowed: chain id, trusting period, deprecated flags), unknown / identical ids, then further updates, consumers and a second recovery on the recovered subject; a directed history replays the older-substitute witness of C23. upgrade: a real client of the real ibctesting chain B; B commits an upgraded client (next revision / same revision / mismatching revision / height not above; unbonding grown, shrunk by 1/3, by 1-1000ns, to 1-3ns; nil proof specs) and consensus state under its upgrade path; UpgradeClient with honest and mutated arguments (swapped / garbage / empty / stale-height proofs, lied unbonding period or chain id, altered consensus state, relayer-chosen custom fields, undecodable bytes, empty or foreign upgrade path on the client, expired client, latest height past the plan height), then the first header of the upgraded chain and a stale second upgrade."
 
@@ -312,7 +314,7 @@ PROPS = {
                                   "calculateNewTrustingPeriod is modelled with LegacyDec's 18-decimal round-half-even quotient (tied by the calcTP correspondence up to 2^62 ns)",
                                   "client type check of the substitute (LightClientModule.RecoverClient) is outside the model: all clients are 07-tendermint"],
         "assumptions": ["MetaInv of the substitute's store (part of the proved world invariant): an Active substitute has processed time/height for its latest consensus state"],
-        "level_text": "full for gates, effects and confinement (upgrade proofs via oracle): recovery succeeds iff subject exists and is not Active, substitute Active, strictly greater latest height, IsMatchingClientState (= equality of trust level, unbonding period, clock drift, proof specs, upgrade path); effect = unfrozen + substitute's latest height / chain id / trusting period + its latest consensus state with processed time/height, nothing else, subject Active afterwards; upgrade succeeds iff Active, bytes decode, strictly greater height, non-empty upgrade path, both proofs verify, new client state validates; effect = chain-chosen fields from the committed client, own trust level and clock drift kept, trusting period scaled iff unbonding shrank, sentinel-root consensus state + metadata at the new height; relayer-chosen fields ignored; failures write nothing; no other client, clock or counter changes",
+        "level_text": "full for gates, effects and confinement (upgrade proofs via oracle): recovery succeeds iff subject exists and is not Active, substitute Active, strictly greater latest height, IsMatchingClientState (= equality of trust level, unbonding period, clock drift, proof specs, upgrade path); effect = unfrozen + substitute's latest height / chain id / trusting period + its latest consensus state with processed time/height, nothing else, subject Active afterwards; upgrade succeeds iff Active, bytes decode, strictly greater height, non-empty upgrade path, both proofs verify, new client state validates; effect = chain-chosen fields from the committed client, own trust level and clock drift kept, trusting period scaled iff unbonding shrank (= floor(tp*ub'/ub) exactly, for unbonding periods < 10^18 ns), sentinel-root consensus state + metadata at the new height; relayer-chosen fields ignored; failures write nothing; no other client, clock or counter changes",
     },
     "C32": {
         "lean": ["IbcVerif.Props.C32"],
@@ -462,7 +464,7 @@ PROPS.update({
     "C43": {
         "lean": ["IbcVerif.Props.C43"],
         "engines": [{"bin": "apps", "model": "pfm", "model_exe": "appsmodel", "groups": ["pfm"],
-                     "n": (60, 600), "monitor": (60, 600), "workers": 8, "timeout": 3000}],
+                     "n": (60, 200), "monitor": (60, 200), "workers": 6, "timeout": 3000}],
         "rule": "pfm: multi-hop forwards on FOUR real ibctesting chains in a line (0-1-2-3, testing/simapp wiring transfer<-PFM<-rate-limit), every hop relayed through core IBC with real proofs: start chain, token origin (native / voucher from any of the four chains => unwinding and non-unwinding hops, mint/unescrow on receive and escrow/burn on forward in every combination), routes of 2-3 hops incl. forwarding back over the arrival channel, outcomes: all hops succeed; error ack at the final chain (invalid receiver); an intermediate chain cannot forward (unknown channel); a forwarded packet times out more often than `retries` (PFM gives up) or within the retry budget (delivered after retries). Observed per scenario: delivered / refunded / stuck, and the COMPLETE bank state (all balances, all supplies) plus the ICS-20 total-escrow table of all four chains before and after, and the PFM override-receiver accounts. The model predicts the class and whether a refund leaves every chain exactly as before from the (receive kind, forward kind) of each intermediate hop, which the generator derives from the token's origin and the route (ground truth it controls)",
         "trusted": ["ICS-20's own behaviour (what a receive credits / a send debits) is the transfer cluster's model (C30-C33); here an intermediate chain is abstracted to the four quantities PFM's refund touches (voucher supply, the two escrow accounts, total escrow)",
                     "core IBC relaying, acknowledgements and timeouts are real (ibctesting); retries and timeouts are exercised on the real code and covered by the monitor, not by a Lean theorem",
